@@ -29,6 +29,9 @@ def identity(name, sc, agree):
 
 def check(run, tier, seed, replay=None):
     run.assumptions += [
+        "ObjectSets of a like-labelled deployment in a second namespace (corpus entries with 'foreign' ObjectSets: same / other template "
+        "hashes, higher / lower revisions) are not part of the model's world; that no request of a deployment pass names them, that they "
+        "stay unchanged and never appear in spec.previous is judged on the observed requests and stored objects (depcheck.namespace_violations)",
         "pass-level atomicity; cache staleness limited to 'the ObjectSet created by the latest deployment pass is missing from List "
         "but visible to Get' (wrapper client in the harness, ghost dw_fresh in the model)",
         "List returns ObjectSets in key order and sort.Sort is stable (insertion sort) for at most 12 ObjectSets",
@@ -60,6 +63,8 @@ def check(run, tier, seed, replay=None):
         if any(c[0] == "dep" and (c[1] or c[2] or any(e[0] != "status" for e in c[4])) for c in cls):
             run.classes.add(cls)
         agree, mons = r[0], r[1:]
+        if dc.ID_NS_PREV in dc.namespace_violations(sc, obs):
+            run.violation(dc.ID_NS_PREV, {"scenario": dl.slim(sc), "impl": dc.slim_obs(obs), "monitor": "namespace"}, True)
         concrete = False
         for name, okk in zip(NAMES, mons):
             if not okk:
